@@ -69,7 +69,7 @@ def check(tier):
                      '<Felt as Inverse>::inverse_or_zero', '<Felt as From<usize>>::from']
     rep.bounds = ['none beyond the types: all a,b in [0,q) (u32 raw representatives), all v in i16; inversion split in 13 slices a>>10 = k',
                   'From<usize>: v <= i16::MAX (the conversion narrows through i16 by construction)']
-    rep.outside = ['batch inversion is decided under C11/C12 engine S (log-domain encoding), not by Kani']
+    rep.outside = ['batch lengths above the stated bound (the loop body is uniform, but that is an argument, not a query)']
     rep.trusted = ['Kani 0.68 / CBMC 6.11 / cadical', 'rustc codegen as modelled by Kani (dev profile, overflow checks on)']
     rep.assumptions = ['operands are canonical residues (the invariant every constructor establishes, itself checked by c12_new_all_i16)']
     rep.extra['exhaustive'] = True
@@ -101,4 +101,49 @@ def check(tier):
         else:
             rep.oblige(1, ok=False)
             rep.note_inconclusive('harness %s: no verdict (timeout/crash): %s' % (n, r.raw[-300:]))
+    batch_inversion(rep, tier)
     return rep.finish()
+
+
+def batch_inversion(rep, tier):
+    """Inverse::batch_inverse_or_zero (generic code) run on the log-domain symbolic type of engine S: every non-zero operand is
+    g^e with e symbolic in Z_{q-1}; z3 decides that every output is the inverse (exponent -e) resp. zero, for every zero pattern."""
+    from .. import symfield as S
+    from concurrent.futures import ThreadPoolExecutor
+    maxlen = 4 if tier == 'quick' else 7
+    jobs = [(n, mask) for n in range(0, maxlen + 1) for mask in range(1 << n)]
+
+    def work(j):
+        n, mask = j
+        path = S.emit('batch', 'felt', n, mask, name='batch_%d_%d.smt2' % (n, mask))
+        v, dt, model = S.solve(path, timeout=120)
+        if v == 'sat':
+            v2, dt2, model = S.solve(path, timeout=120, want_model=True)
+        return n, mask, v, dt, model
+    replay.build('dev')
+    with ThreadPoolExecutor(max_workers=NCPU) as ex:
+        res = list(ex.map(work, jobs))
+    bad = 0
+    for n, mask, v, dt, model in res:
+        rep.queries += 1; rep.solver_s += dt; rep.states += 1; rep.transitions += max(n, 1)
+        if v == 'unsat':
+            rep.oblige(1); continue
+        rep.oblige(1, ok=False)
+        if v == 'sat':
+            # replay: pick the generator 11 of Z_q^*, map exponents to residues
+            g = 11
+            vals = [0 if (mask >> i) & 1 else pow(g, (model or {}).get('e%d' % i, 1), Q) for i in range(n)]
+            want = ','.join(str(pow(x, Q - 2, Q)) for x in vals)
+            dev, rel = replay.both(['felt_batch_inv', ','.join(map(str, vals)) if vals else '-'])
+            rep.replayed += 1
+            if dev != want or rel != want:
+                rep.violation('batch_inverse_or_zero', 'batch_inverse_or_zero(%s) = %s / %s, expected %s' % (vals, dev, rel, want),
+                              {'replay_request': ['felt_batch_inv', vals], 'expected': want, 'dev': dev, 'release': rel})
+            else:
+                rep.note_inconclusive('engine S (log domain) counterexample for batch inversion (len %d, zero mask %d) did not reproduce natively' % (n, mask))
+        else:
+            rep.note_inconclusive('engine S batch inversion len %d mask %d: %s' % (n, mask, v))
+    rep.functions.append('Inverse::batch_inverse_or_zero (generic code, engine S log-domain instantiation)')
+    rep.bounds.append('batch inversion: every batch length 0..%d, every zero pattern, all non-zero operands (exponents symbolic in Z_12288)' % maxlen)
+    rep.trusted.append('F_q^* is cyclic of order q-1 (log-domain encoding of multiplication / inversion), and Felt multiplication / inversion are exact (harnesses above)')
+    rep.sample({'engine': 'S', 'query': 'batch_inverse_or_zero on [g^e0, 0, g^e2]: some output is not the inverse', 'verdict': [v for n, m, v, _, _ in res if (n, m) == (3, 2)]})
